@@ -648,6 +648,14 @@ theorem stop_kw (sp t : Str) (k : String) (bad : List Str) (hk : Spells sp k)
 /-! ## the expression round trip -/
 theorem need_pos (e : Expr) : 0 < need e := by cases e <;> simp [need]
 
+theorem pr_cmp_ne (K : Kw) (l : Nat) (f : Str) (op : CmpOp) (v : Value) (h : ¬ (op = .eq ∧ v = .bool true)) :
+    pr K l (.cmp f op v) = f ++ ' ' :: (printCmpOp op ++ ' ' :: printValue v) := by
+  unfold pr
+  split <;> simp_all
+
+theorem pr_cmp_atom (K : Kw) (l : Nat) (f : Str) : pr K l (.cmp f .eq (.bool true)) = f := by
+  simp [pr]
+
 theorem pr_head (K : Kw) (hK : K.Valid) (e : Expr) (he : WFExpr e) :
     ∀ l, ∃ c t, pr K l e = c :: t ∧ (isIdentStart c = true ∨ c = '(') := by
   induction e with
@@ -656,11 +664,7 @@ theorem pr_head (K : Kw) (hK : K.Valid) (e : Expr) (he : WFExpr e) :
     obtain ⟨c, cs, rfl, hc⟩ := field_head f he.1.1
     by_cases h : op = .eq ∧ v = .bool true
     · obtain ⟨rfl, rfl⟩ := h; exact ⟨c, cs, by simp [pr], Or.inl hc⟩
-    · refine ⟨c, cs ++ ' ' :: (printCmpOp op ++ ' ' :: printValue v), ?_, Or.inl hc⟩
-      unfold pr
-      split
-      · rename_i h1 h2; exact absurd (And.intro h1 h2) h
-      · simp
+    · exact ⟨c, cs ++ ' ' :: (printCmpOp op ++ ' ' :: printValue v), by rw [pr_cmp_ne K l _ op v h]; simp, Or.inl hc⟩
   | inList f vs =>
     intro l
     obtain ⟨c, cs, rfl, hc⟩ := field_head f he.1.1
@@ -701,5 +705,166 @@ theorem lift_levels (factor : P Expr) (t : Str) (e : Expr) (m2 m3 : Nat)
   have hA : ∀ rest, Stop [kIN, kAND] rest → andWith factor (k2 + 1) (t ++ rest) = .ok e rest := fun rest hs =>
     and_single factor k2 _ rest e _ (hF rest (hs.mono (by simp))) hs (by simp)
   exact ⟨hA rest, fun hs => or_single _ k3 _ rest e _ (hA rest (hs.mono (by intro k hk; simp at hk ⊢; rcases hk with h | h <;> simp [h]))) hs (by simp)⟩
+
+
+theorem eqCi_and_in : eqCi "AND".toList kIN = false := by decide
+theorem eqCi_or_in : eqCi "OR".toList kIN = false := by decide
+theorem eqCi_or_and : eqCi "OR".toList kAND = false := by decide
+
+theorem exprF_succ (S : Sites) (n : Nat) :
+    exprF S (n + 1) = orWith (andWith (factorWith S n (exprF S n) n) n) n := rfl
+
+/-- The three levels of the expression grammar parse what the printer prints, for every spelling of
+the keywords, whatever follows (as long as it cannot continue the expression). -/
+theorem rt (S : Sites) (K : Kw) (hK : K.Valid) : ∀ e, WFExpr e →
+    ∀ n m1 m2 m3, need e ≤ n → need e ≤ m1 → need e ≤ m2 → need e ≤ m3 → ∀ rest,
+    (Stop [kIN] rest → factorWith S n (exprF S n) m1 (pr K 2 e ++ rest) = .ok e rest) ∧
+    (Stop [kIN, kAND] rest → andWith (factorWith S n (exprF S n) m1) m2 (pr K 1 e ++ rest) = .ok e rest) ∧
+    (Stop [kIN, kAND, kOR] rest →
+      orWith (andWith (factorWith S n (exprF S n) m1) m2) m3 (pr K 0 e ++ rest) = .ok e rest) := by
+  intro e
+  induction e with
+  | cmp f op v =>
+    intro he n m1 m2 m3 hn h1 h2 h3 rest
+    simp only [need] at hn h1 h2 h3
+    obtain ⟨k1, rfl⟩ : ∃ k, m1 = k + 1 := ⟨m1 - 1, by omega⟩
+    by_cases hat : op = .eq ∧ v = .bool true
+    · obtain ⟨rfl, rfl⟩ := hat
+      simp only [pr_cmp_atom]
+      have hF : ∀ rest, Stop [kIN] rest → factorWith S n (exprF S n) (k1 + 1) (f ++ rest) = .ok (.cmp f .eq (.bool true)) rest :=
+        fun rest hs => factor_atom S n k1 _ f rest he.1 hs
+      exact ⟨hF rest, lift_levels _ f _ m2 m3 hF (by omega) (by omega) rest⟩
+    · have hv : WFValue v := by
+        rcases he.2 with h | h
+        · exact absurd h hat
+        · exact h
+      simp only [pr_cmp_ne K _ f op v hat]
+      have hF : ∀ rest, Stop [kIN] rest → factorWith S n (exprF S n) (k1 + 1)
+          ((f ++ ' ' :: (printCmpOp op ++ ' ' :: printValue v)) ++ rest) = .ok (.cmp f op v) rest := by
+        intro rest hs
+        have := factor_cmp S n k1 (exprF S n) f rest op v he.1 hv (stop_endTok hs)
+        simpa using this
+      exact ⟨hF rest, lift_levels _ _ _ m2 m3 hF (by omega) (by omega) rest⟩
+  | inList f vs =>
+    intro he n m1 m2 m3 hn h1 h2 h3 rest
+    simp only [need] at hn h1 h2 h3
+    obtain ⟨k1, rfl⟩ : ∃ k, m1 = k + 1 := ⟨m1 - 1, by omega⟩
+    have hF : ∀ rest, Stop [kIN] rest → factorWith S n (exprF S n) (k1 + 1)
+        ((f ++ ' ' :: (K.in_ ++ ' ' :: '(' :: (commaJoin (vs.map printValue) ++ [')']))) ++ rest) = .ok (.inList f vs) rest := by
+      intro rest _
+      have := factor_in S n k1 (exprF S n) f K.in_ rest vs he.1 hK.2.2.2.1 he.2 (by omega)
+      simpa using this
+    have hp : ∀ l, pr K l (.inList f vs) = f ++ ' ' :: (K.in_ ++ ' ' :: '(' :: (commaJoin (vs.map printValue) ++ [')'])) := by
+      intro l; simp [pr]
+    simp only [hp]
+    exact ⟨hF rest, lift_levels _ _ _ m2 m3 hF (by omega) (by omega) rest⟩
+  | not x ih =>
+    intro he n m1 m2 m3 hn h1 h2 h3 rest
+    simp only [need] at hn h1 h2 h3
+    obtain ⟨k1, rfl⟩ : ∃ k, m1 = k + 1 := ⟨m1 - 1, by omega⟩
+    have hF : ∀ rest, Stop [kIN] rest → factorWith S n (exprF S n) (k1 + 1)
+        ((K.not_ ++ ' ' :: pr K 2 x) ++ rest) = .ok (.not x) rest := by
+      intro rest hs
+      have hx := (ih he n k1 k1 k1 (by omega) (by omega) (by omega) (by omega) rest).1 hs
+      have := factor_not S n k1 (exprF S n) K.not_ (pr K 2 x ++ rest) rest x hK.2.2.1 (pr_head_ws K hK x he 2 rest) hx
+      simpa using this
+    have hp : ∀ l, pr K l (.not x) = K.not_ ++ ' ' :: pr K 2 x := by intro l; simp [pr]
+    simp only [hp]
+    exact ⟨hF rest, lift_levels _ _ _ m2 m3 hF (by omega) (by omega) rest⟩
+  | and a b iha ihb =>
+    intro he n m1 m2 m3 hn h1 h2 h3 rest
+    simp only [need] at hn h1 h2 h3
+    have pa := need_pos a
+    have pb := need_pos b
+    -- the unparenthesised text at the AND level, for arbitrary fuels
+    have hA : ∀ n m1 m2 rest, need a ≤ n → need b ≤ n → need a ≤ m1 → need b ≤ m1 → need b + 1 ≤ m2 →
+        Stop [kIN, kAND] rest →
+        andWith (factorWith S n (exprF S n) m1) m2 ((pr K 2 a ++ ' ' :: (K.and_ ++ ' ' :: pr K 1 b)) ++ rest) = .ok (.and a b) rest := by
+      intro n m1 m2 rest hna hnb hma hmb hm2 hs
+      obtain ⟨k2, rfl⟩ : ∃ k, m2 = k + 1 := ⟨m2 - 1, by omega⟩
+      have hsa : Stop [kIN] (' ' :: (K.and_ ++ ' ' :: (pr K 1 b ++ rest))) :=
+        stop_kw K.and_ _ "AND" [kIN] hK.1 (by intro b hb; simp at hb; subst hb; exact eqCi_and_in)
+      have ha := (iha he.1 n m1 m1 m1 hna hma hma hma _).1 hsa
+      have hb := (ihb he.2 n m1 k2 k2 hnb hmb (by omega) (by omega) rest).2.1 hs
+      have := and_node (factorWith S n (exprF S n) m1) k2
+        (pr K 2 a ++ ' ' :: (K.and_ ++ ' ' :: (pr K 1 b ++ rest))) K.and_ (pr K 1 b ++ rest) rest a b hK.1
+        (pr_head_ws K hK b he.2 1 rest) ha hb
+      simpa using this
+    have hO : ∀ n m1 m2 m3 rest, need a ≤ n → need b ≤ n → need a ≤ m1 → need b ≤ m1 → need b + 1 ≤ m2 → 0 < m3 →
+        Stop [kIN, kAND, kOR] rest →
+        orWith (andWith (factorWith S n (exprF S n) m1) m2) m3 ((pr K 2 a ++ ' ' :: (K.and_ ++ ' ' :: pr K 1 b)) ++ rest) = .ok (.and a b) rest := by
+      intro n m1 m2 m3 rest hna hnb hma hmb hm2 hm3 hs
+      obtain ⟨k3, rfl⟩ : ∃ k, m3 = k + 1 := ⟨m3 - 1, by omega⟩
+      exact or_single _ k3 _ rest _ _ (hA n m1 m2 rest hna hnb hma hmb hm2 (hs.mono (by intro k hk; simp at hk ⊢; rcases hk with h | h <;> simp [h]))) hs (by simp)
+    have hF : ∀ n m1 rest, need a + need b + 1 ≤ n → 0 < m1 → Stop [kIN] rest →
+        factorWith S n (exprF S n) m1 ('(' :: ((pr K 2 a ++ ' ' :: (K.and_ ++ ' ' :: pr K 1 b)) ++ ')' :: rest)) = .ok (.and a b) rest := by
+      intro n m1 rest hn hm1 _
+      obtain ⟨n', rfl⟩ : ∃ k, n = k + 1 := ⟨n - 1, by omega⟩
+      obtain ⟨k1, rfl⟩ : ∃ k, m1 = k + 1 := ⟨m1 - 1, by omega⟩
+      have hin := hO n' n' n' n' (')' :: rest) (by omega) (by omega) (by omega) (by omega) (by omega) (by omega)
+        (Or.inr (Or.inl ⟨rest, rfl⟩))
+      apply factor_paren S (n' + 1) k1 (exprF S (n' + 1)) _ rest (.and a b)
+      · obtain ⟨c, t, ht, hc⟩ := pr_head K hK a he.1 2
+        rw [ht]; simp [HeadAll]
+        rcases hc with hc | rfl
+        · exact (identStart_props c hc).1
+        · decide
+      · rw [exprF_succ]; exact hin
+    have hp0 : pr K 0 (.and a b) = pr K 2 a ++ ' ' :: (K.and_ ++ ' ' :: pr K 1 b) := by simp [pr, paren]
+    have hp1 : pr K 1 (.and a b) = pr K 2 a ++ ' ' :: (K.and_ ++ ' ' :: pr K 1 b) := by simp [pr, paren]
+    have hp2 : pr K 2 (.and a b) = '(' :: ((pr K 2 a ++ ' ' :: (K.and_ ++ ' ' :: pr K 1 b)) ++ [')']) := by simp [pr, paren]
+    refine ⟨?_, ?_, ?_⟩
+    · intro hs
+      have := hF n m1 rest (by omega) (by omega) hs
+      rw [hp2]; simpa using this
+    · intro hs; rw [hp1]; exact hA n m1 m2 rest (by omega) (by omega) (by omega) (by omega) (by omega) hs
+    · intro hs; rw [hp0]; exact hO n m1 m2 m3 rest (by omega) (by omega) (by omega) (by omega) (by omega) (by omega) hs
+  | or a b iha ihb =>
+    intro he n m1 m2 m3 hn h1 h2 h3 rest
+    simp only [need] at hn h1 h2 h3
+    have pa := need_pos a
+    have pb := need_pos b
+    have hO : ∀ n m1 m2 m3 rest, need a ≤ n → need b ≤ n → need a ≤ m1 → need b ≤ m1 → need a ≤ m2 → need b ≤ m2 →
+        need b + 1 ≤ m3 → Stop [kIN, kAND, kOR] rest →
+        orWith (andWith (factorWith S n (exprF S n) m1) m2) m3 ((pr K 1 a ++ ' ' :: (K.or_ ++ ' ' :: pr K 0 b)) ++ rest) = .ok (.or a b) rest := by
+      intro n m1 m2 m3 rest hna hnb hma hmb hm2a hm2b hm3 hs
+      obtain ⟨k3, rfl⟩ : ∃ k, m3 = k + 1 := ⟨m3 - 1, by omega⟩
+      have hsa : Stop [kIN, kAND] (' ' :: (K.or_ ++ ' ' :: (pr K 0 b ++ rest))) :=
+        stop_kw K.or_ _ "OR" [kIN, kAND] hK.2.1 (by
+          intro b hb; simp at hb; rcases hb with rfl | rfl
+          · exact eqCi_or_in
+          · exact eqCi_or_and)
+      have ha := (iha he.1 n m1 m2 m2 hna hma hm2a hm2a _).2.1 hsa
+      have hb := (ihb he.2 n m1 m2 k3 hnb hmb hm2b (by omega) rest).2.2 hs
+      have := or_node (andWith (factorWith S n (exprF S n) m1) m2) k3
+        (pr K 1 a ++ ' ' :: (K.or_ ++ ' ' :: (pr K 0 b ++ rest))) K.or_ (pr K 0 b ++ rest) rest a b hK.2.1
+        (pr_head_ws K hK b he.2 0 rest) ha hb
+      simpa using this
+    have hF : ∀ n m1 rest, need a + need b + 1 ≤ n → 0 < m1 → Stop [kIN] rest →
+        factorWith S n (exprF S n) m1 ('(' :: ((pr K 1 a ++ ' ' :: (K.or_ ++ ' ' :: pr K 0 b)) ++ ')' :: rest)) = .ok (.or a b) rest := by
+      intro n m1 rest hn hm1 _
+      obtain ⟨n', rfl⟩ : ∃ k, n = k + 1 := ⟨n - 1, by omega⟩
+      obtain ⟨k1, rfl⟩ : ∃ k, m1 = k + 1 := ⟨m1 - 1, by omega⟩
+      have hin := hO n' n' n' n' (')' :: rest) (by omega) (by omega) (by omega) (by omega) (by omega) (by omega) (by omega)
+        (Or.inr (Or.inl ⟨rest, rfl⟩))
+      apply factor_paren S (n' + 1) k1 (exprF S (n' + 1)) _ rest (.or a b)
+      · obtain ⟨c, t, ht, hc⟩ := pr_head K hK a he.1 1
+        rw [ht]; simp [HeadAll]
+        rcases hc with hc | rfl
+        · exact (identStart_props c hc).1
+        · decide
+      · rw [exprF_succ]; exact hin
+    have hp0 : pr K 0 (.or a b) = pr K 1 a ++ ' ' :: (K.or_ ++ ' ' :: pr K 0 b) := by simp [pr, paren]
+    have hp1 : pr K 1 (.or a b) = '(' :: ((pr K 1 a ++ ' ' :: (K.or_ ++ ' ' :: pr K 0 b)) ++ [')']) := by simp [pr, paren]
+    have hp2 : pr K 2 (.or a b) = '(' :: ((pr K 1 a ++ ' ' :: (K.or_ ++ ' ' :: pr K 0 b)) ++ [')']) := by simp [pr, paren]
+    have hF' : ∀ rest, Stop [kIN] rest → factorWith S n (exprF S n) m1
+        (('(' :: ((pr K 1 a ++ ' ' :: (K.or_ ++ ' ' :: pr K 0 b)) ++ [')'])) ++ rest) = .ok (.or a b) rest := by
+      intro rest hs
+      have := hF n m1 rest (by omega) (by omega) hs
+      simpa using this
+    refine ⟨?_, ?_, ?_⟩
+    · intro hs; rw [hp2]; exact hF' rest hs
+    · intro hs; rw [hp1]; exact (lift_levels _ _ _ m2 m3 hF' (by omega) (by omega) rest).1 hs
+    · intro hs; rw [hp0]; exact hO n m1 m2 m3 rest (by omega) (by omega) (by omega) (by omega) (by omega) (by omega) (by omega) hs
 
 end Snel.Parser
